@@ -150,6 +150,10 @@ func (d *Driver) Snapshot(ctx context.Context) (migrate.RestoreFunc, error) {
 		return nil, &migrate.NotCleanError{State: r, Reason: fmt.Sprintf("found %s %q", typ, name)}
 	}
 	return func(ctx context.Context) error {
+		// Replayed statements may leave an explicit transaction open (e.g., a statement that failed
+		// between BEGIN and COMMIT), and VACUUM cannot run inside one. There is usually no open
+		// transaction, in which case the ROLLBACK fails and its error is ignored.
+		_, _ = d.ExecContext(ctx, "ROLLBACK;")
 		for _, stmt := range []string{
 			"PRAGMA writable_schema = 1;",
 			"DELETE FROM sqlite_master WHERE type IN ('table', 'view', 'index', 'trigger');",
